@@ -29,6 +29,11 @@ MUTANTS = {
             ('copy-implicit-pins', 'circuit.py', "            Line(c, (d, line.driver_pin), (r, line.reader_pin))", "            Line(c, d, r)"),
             ('pickle-io-order', 'circuit.py', "        io_nodes = [n.index for n in self.io_nodes]", "        io_nodes = sorted(n.index for n in self.io_nodes)"),
             ('subst-input-fork-pin', 'circuit.py', "                ll.reader_pin = l.reader_pin\n", "                ll.reader_pin = 0\n")],
+    'C03': [('ovl-parity', 'wave_sim.py', "                    overflows += 1\n                    previous_t = cbuf[z_mem + z_cur - 1, sim]\n                    z_cur -= 1", "                    overflows += 1\n                    previous_t = cbuf[z_mem + z_cur - 1, sim]"),
+            ('cap-off-by-one', 'wave_sim.py', "if z_cur < (z_cap - 1):  # enough space in z_mem?", "if z_cur < z_cap:  # enough space in z_mem?"),
+            ('lut-index-c', 'wave_sim.py', "            inputs ^= 4\n", "            inputs ^= 8\n"),
+            ('assign-gpu-fall', 'wave_sim.py', "    elif value == 2:\n        c[c_loc, x] = TMIN\n        c[c_loc+1, x] = ttime", "    elif value == 2:\n        c[c_loc, x] = ttime\n        c[c_loc+1, x] = TMAX"),
+            ('filter-when-first', 'wave_sim.py', "            if (z_cur == 0                            # it is the first edge in z_mem ...", "            if (False                                 # it is the first edge in z_mem ...")],
 }
 
 
